@@ -722,7 +722,25 @@ pub(crate) fn decompress_block(
 /// Reads and decodes the footer from a file.
 fn read_footer(f: Arc<dyn File>, file_size: usize) -> Result<Footer> {
 	let buf = Footer::read_from(f, file_size)?;
-	Footer::decode(&buf)
+	let footer = Footer::decode(&buf)?;
+
+	// The block handles come from unauthenticated bytes and their sizes drive the
+	// allocations in `read_bytes`. A damaged footer (e.g. one flipped varint
+	// continuation bit chains two varints into a multi-terabyte size) must be
+	// reported as corruption, not followed: both blocks, including their
+	// compression-type and checksum trailer, have to lie before the footer.
+	let data_end = file_size - TABLE_FULL_FOOTER_LENGTH;
+	for handle in [&footer.meta_index, &footer.index] {
+		let end = handle
+			.offset()
+			.checked_add(handle.size())
+			.and_then(|end| end.checked_add(BLOCK_COMPRESS_LEN + BLOCK_CKSUM_LEN));
+		if end.is_none_or(|end| end > data_end) {
+			return Err(Error::from(SSTableError::CorruptedBlockHandle));
+		}
+	}
+
+	Ok(footer)
 }
 
 /// Reads raw bytes at a block handle's location.
